@@ -15,7 +15,9 @@ RULE = (
     "on parse_teal(src).bbs against R-CFG (partition of retained instructions, single entry/exit, mirrored "
     "next/prev, successor sets, bz/bnz order). walk: every R-AVM execution (lazy valuation search, accepted and "
     "rejected) must be a walk in tealer's graph with callsub->callee entry and retsub->block after the matching "
-    "callsub. Non-trivial = program has dead code that branches/calls into live code, a back edge, or a branch "
+    "callsub. dispatch: Function.blocks of the function built for a drawn root-to-block dispatch path: bz/bnz "
+    "successors positionally [fall-through, target] with off-path ones replaced in place by an error stand-in, "
+    "mirrored lists, contract graph untouched (non-trivial = the path follows a jump edge). Non-trivial = program has dead code that branches/calls into live code, a back edge, or a branch "
     "to the next line; distinct by rendered source."
 )
 ASSUMPTIONS = ["R-CFG (vf/rcfg.py) and R-AVM (vf/ravm.py) are the references; generated programs are assembler-valid by construction"]
@@ -152,6 +154,80 @@ def check_walk(case):
             "counters": {"executions": nexec, "accepted_executions": nacc}}
 
 
+@st.composite
+def dispatch_case(draw):
+    """structured layout program + a root-to-block path of its main graph (the dispatch path of a function)"""
+    from vf.props.c12 import main_paths
+
+    p = draw(layout_program(structured=True))
+    g = RCFG(p)
+    paths = main_paths(g)
+    longer = [x for x in paths if len(x) >= 2]
+    p = dict(p)
+    p["path"] = draw(st.sampled_from(longer)) if longer and draw(st.integers(0, 4)) else draw(st.sampled_from(paths))
+    return p
+
+
+def check_dispatch(case):
+    """Function.blocks of a function cut out by a dispatch path: an off-path successor is replaced by an error
+    stand-in *in its position* (bz/bnz: [fall-through, target]), lists mirrored, nothing else changes"""
+    from tealer.teal.parse_functions import construct_function
+
+    g = RCFG(case)
+    try:
+        teal = adapter.parse(g.text)
+    except adapter.TealerCrash as e:
+        raise Violation("parse-crash", f"{e}")
+    idx_of = {b.entry_instr.line: b.idx for b in teal.bbs}
+    path = case["path"]
+    try:
+        with adapter.captured():
+            fn = construct_function(teal, [f"B{idx_of[l]}" for l in path], "f")
+    except BaseException as e:  # pylint: disable=broad-except
+        raise Violation("function-crash", f"construct_function({path}) raised {type(e).__name__}: {e}\n{g.text}")
+    finally:
+        adapter.clear_caches()
+
+    def is_standin(b):
+        return len(b.instructions) == 1 and type(b.instructions[0]).__name__ == "TealerCustomErrInstruction"
+
+    where = f"dispatch path {path}\n{g.text}"
+    real = [b for b in fn.blocks if not is_standin(b)]
+    first = {b.entry_instr.line: b for b in real}
+    n_standins = 0
+    for b in real:
+        ls = [i.line for i in b.instructions]
+        last = g.by_line[ls[-1]]
+        exp = g.succ_lines(ls[-1])
+        kpos = path.index(ls[0]) if ls[0] in path else None
+        on_path = kpos is not None and kpos < len(path) - 1
+        if len(b.next) != len(exp) and last.op in ("bz", "bnz", "b"):
+            raise Violation("successor-set", f"{last.text!r} at line {ls[-1]}: {len(b.next)} successors, expected {exp}: {where}")
+        if last.op in ("bz", "bnz"):
+            for j, x in enumerate(b.next):
+                if is_standin(x):
+                    n_standins += 1
+                    if not on_path or exp[j] == path[kpos + 1]:
+                        raise Violation("standin-for-on-path-successor", f"{last.text!r} at line {ls[-1]}: successor {j} (line {exp[j]}) is replaced by an error block: {where}")
+                elif x.entry_instr.line != exp[j]:
+                    got = ["ERR" if is_standin(y) else y.entry_instr.line for y in b.next]
+                    raise Violation("branch-successor-order", f"function: {last.text!r} at line {ls[-1]}: successors {got}, expected [fall-through, target] = {exp} (off-path ones replaced in place): {where}")
+        for x in b.next:
+            if b.next.count(x) != x.prev.count(b):
+                raise Violation("next-prev-not-mirrored", f"function: edge {ls[0]}->{'ERR' if is_standin(x) else x.entry_instr.line}: next {b.next.count(x)}x, prev {x.prev.count(b)}x: {where}")
+            if not is_standin(x) and first.get(x.entry_instr.line) is not x:
+                raise Violation("next-outside-graph", f"function: successor of line {ls[0]} at line {x.entry_instr.line} is not a block of the function: {where}")
+    # the contract's own graph is untouched
+    check_blocks(g, teal.bbs, g.retained_lines(), "contract-after-function")
+    jump_step = any(
+        g.by_line[[i.line for i in first[l].instructions][-1]].op in ("bz", "bnz") and
+        g.succ_lines([i.line for i in first[l].instructions][-1])[-1] == path[k + 1] and
+        len(g.succ_lines([i.line for i in first[l].instructions][-1])) == 2
+        for k, l in enumerate(path[:-1]) if l in first)
+    return {"nontrivial": jump_step, "key": case_hash([g.text, path]), "features": g.features() + [f"pathlen{len(path)}"] + (["path_follows_jump_edge"] if jump_step else []),
+            "counters": {"standins": n_standins}}
+
+
 def components(tier, disabled):
     q = tier == "quick"
     both = st.one_of(layout_program(structured=True), layout_program(structured=False))
@@ -160,4 +236,6 @@ def components(tier, disabled):
                       "sample": lambda c, i: RCFG(c).text},
         "walk": {"strategy": both, "check": check_walk, "examples": 2500 if q else 100000,
                  "sample": lambda c, i: RCFG(c).text},
+        "dispatch": {"strategy": dispatch_case(), "check": check_dispatch, "examples": 2500 if q else 100000,
+                     "sample": lambda c, i: {"path": c["path"], "source": RCFG(c).text}},
     }
